@@ -177,6 +177,8 @@ def field_accumulation(chk, repo, clause):
 
 
 def run(chk, repo, tier):
+    from .common import no_hidden_state
+    no_hidden_state(chk, repo, 'C02')
     chk.clause('C02-a', 'alpha = dx*du/(wavelength*z*oversample) per axis, with consistent units', 4)
     chk.clause('C02-b', 'call contracts of propagate_dft (alpha, windows, dft2 arguments, output Field)', 40)
     chk.clause('C02-c', 'tilt shift comes back as (row, col) in oversampled output samples of the same axis', 2)
